@@ -2246,10 +2246,22 @@ class KmipEngine(object):
 
                     # Fetch the attribute from the object and check if it
                     # matches. If not, the object doesn't match, so skip it.
-                    attribute = self._get_attribute_from_managed_object(
-                        managed_object,
-                        name
-                    )
+                    try:
+                        attribute = self._get_attribute_from_managed_object(
+                            managed_object,
+                            name
+                        )
+                    except AttributeError:
+                        # The object does not carry this attribute (e.g.,
+                        # a certificate has no cryptographic algorithm), so
+                        # it cannot match the filter.
+                        self._logger.debug(
+                            "Failed match: "
+                            "the object does not have the specified "
+                            "attribute ({}).".format(name)
+                        )
+                        add_object = False
+                        break
                     if attribute is None:
                         continue
                     elif name == "Application Specific Information":
